@@ -56,7 +56,7 @@ const RP: &str = "example.com";
 pub fn cases(tier: Tier) -> Vec<Case> {
     let mut v = vec![];
     for c in super::c04::cases() {
-        if c.level != 0 || c.arc_mutex || c.ext != 0 || c.wire != 0 || c.flip {
+        if c.level != 0 || c.arc_mutex || c.ext != 0 || c.wire != 0 || c.flip || c.protocol_only {
             continue;
         }
         // quick: the presence capability only shows in get_info; keep one value for the ceremonies
@@ -108,7 +108,7 @@ pub fn cases(tier: Tier) -> Vec<Case> {
         for presence_cap in [false, true] {
             for memory_store in [false, true] {
                 for prf in [false, true] {
-                    let cfg = C04Case { op: Op::Get, rk: false, up: true, uv: false, cap, presence_cap, outcome: 3, pin: false, arc_mutex: false, level: 0, uvreq: 0, ext: 0, wire: 0, flip: false };
+                    let cfg = C04Case { op: Op::Get, rk: false, up: true, uv: false, cap, presence_cap, outcome: 3, pin: false, arc_mutex: false, level: 0, uvreq: 0, ext: 0, wire: 0, flip: false, protocol_only: false };
                     for transports in 0..6u8 {
                         v.push(Case { api: "get_info".into(), cfg: cfg.clone(), content: Content::NoMatch, memory_store, prf, unknown_type: false, empty_list: false, fault: 0, big: 0, sloppy: false, slow: 0, transports });
                     }
@@ -138,6 +138,7 @@ fn seeds_sized(content: Content, big: u8) -> (Vec<Passkey>, Option<Vec<Vec<u8>>>
         Content::TwoNoList => (vec![own.clone(), other.clone(), own2], None),
         Content::NoMatch => (vec![], None),
         Content::MatchViaList => (vec![other, own], Some(vec![cred_id(1)])),
+        Content::TwoViaVeryLongList => (vec![own.clone(), other.clone(), own2.clone()], Some(super::c04::very_long_list())),
         Content::MatchViaLongList => {
             let unknown = |k: u8| -> Vec<u8> { [vec![0xD0, k], vec![0x77; 14]].concat() };
             (vec![other, own], Some((0..16u8).map(unknown).chain([cred_id(1)]).chain((16..39u8).map(unknown)).collect()))
